@@ -4,6 +4,7 @@ import Gowarc.Driver.DigestH
 import Gowarc.Driver.ParseH
 import Gowarc.Driver.RecordH
 import Gowarc.Driver.BlockH
+import Gowarc.Driver.RevisitH
 namespace Gowarc.Driver
 
 def handleLine (line : String) : String :=
@@ -26,6 +27,7 @@ def handleLine (line : String) : String :=
       | "valhdr" => handleValHdr args
       | "xpol" => handleXpol args
       | "block" => handleBlock args
+      | "revisit" => handleRevisit args
       | "xpolb" => handleXpolBuild args
       | _ => "unknown-kind"
     id ++ " " ++ out
